@@ -137,7 +137,7 @@ CLAIMED['C13'] = dict(
 
 CLAIMED['C01'] = dict(
     category='exploration',
-    text='BOUNDED at the property level, with deductive obligations on the small encoders only. Bounded (text-to-wire): a generator writes route text AND the values it means (IPv4/IPv6 unicast, multicast, labelled, VPN; next hop IPv4 / IPv6 / self; path-information; origin, one- and two-segment as-path with 2- and 4-byte AS numbers, med, local-preference, atomic-aggregate, aggregator, communities, large and extended communities, originator-id, cluster-list; values at field boundaries); the text goes through the real Configuration and Neighbor.resolve_self, each route is encoded alone by the real UpdateCollection.messages() for nine session kinds (eBGP/iBGP x 2-/4-byte AS, ADD-PATH both ways / we-send-only / peer-sends-only, extended next hop, 65535-byte messages) and decoded by an RFC reference decoder: prefixes, path identifiers, labels, RD, next hop (NEXT_HOP vs MP_REACH, RD-padded for VPN, local address for self) and every attribute must be exactly what was written plus the RFC defaults for that session (ORIGIN IGP; AS_PATH empty / local AS; LOCAL_PREF 100 on iBGP, absent on eBGP; AS_TRANS + AS4_PATH / AS4_AGGREGATOR towards 2-byte peers). Bounded (grouped-routes): 700-3000 routes with one attribute set in one collection per session kind: every UPDATE within the negotiated size and decodable under the session rules, the union exactly the written prefixes. Deductive (discharged by z3, all inputs): Attribute._attribute (RFC 4271 TLV header, extended length iff > 255), INETBase / LabelBase / IPVPNBase.pack_nlri (path identifier present iff ADD-PATH send negotiated: kept, stripped, or 0 prepended), ASN.pack_asn (width by asn4, refusal above 65535 in 2 bytes), plus Negotiated._negotiate, MPNLRICollection._attribute_header, UpdateCollection.prefix, Message._message and the text value functions shared with C07 / C09 / C18.',
+    text='BOUNDED at the property level, with deductive obligations on the small encoders only. Bounded (text-to-wire): a generator writes route text AND the values it means (IPv4/IPv6 unicast, multicast, labelled, VPN; next hop IPv4 / IPv6 / self; path-information; origin, one- and two-segment as-path with 2- and 4-byte AS numbers, med, local-preference, atomic-aggregate, aggregator, communities, large and extended communities, originator-id, cluster-list; values at field boundaries); the text goes through the real Configuration and Neighbor.resolve_self, each route is encoded alone by the real UpdateCollection.messages() for nine session kinds (eBGP/iBGP x 2-/4-byte AS, ADD-PATH both ways / we-send-only / peer-sends-only, extended next hop, 65535-byte messages) and decoded by an RFC reference decoder: prefixes, path identifiers, labels, RD, next hop (NEXT_HOP vs MP_REACH, RD-padded for VPN, local address for self) and every attribute must be exactly what was written plus the RFC defaults for that session (ORIGIN IGP; AS_PATH empty / local AS; LOCAL_PREF 100 on iBGP, absent on eBGP; AS_TRANS + AS4_PATH / AS4_AGGREGATOR towards 2-byte peers). Bounded (grouped-routes): 700-3000 routes with one attribute set in one collection per session kind: every UPDATE within the negotiated size and decodable under the session rules, the union exactly the written prefixes. Deductive (discharged by z3, all inputs): Attribute._attribute (RFC 4271 TLV header, extended length iff > 255), INETBase / LabelBase / IPVPNBase.pack_nlri (path identifier present iff ADD-PATH send negotiated: kept, stripped, or 0 prepended), ASN.pack_asn (width by asn4, refusal above 65535 in 2 bytes), CIDR.decode and CIDR.pack_nlri (RFC 4271 <length, prefix>: mask octet, ceil(mask/8) prefix octets, zero padding; together pack_nlri(decode(b)) == b[:1+ceil(b[0]/8)]), plus Negotiated._negotiate, MPNLRICollection._attribute_header, UpdateCollection.prefix, Message._message and the text value functions shared with C07 / C09 / C18.',
     note='Exploration level: AttributeCollection.pack_attribute (the defaults), ASPath.pack_attribute (AS_TRANS / AS4_PATH), MPNLRICollection next-hop encoding, Neighbor.resolve_self, CIDR / Labels / RouteDistinguisher packing and the route text parser have NO deductive obligation; they are covered by the bounded sweep only. Confederation segments, AIGP, PMSI, prefix-SID, tunnel encapsulation and non-unicast-like families (flow, VPLS, EVPN, ...) are not generated here (see C15/C16/C18). One genuine defect repaired (5c926ef: IPv4 multicast routes were sent in the IPv4 unicast NLRI field).',
     ref='DESIGN.md §6 C01, §11.14',
     technique='bounded stand-in at the property level: generated (text, meaning) pairs through the real parser, resolve_self and encoder for nine negotiated session kinds against an RFC reference decoder; ' + PYVC + ' on the TLV header, ADD-PATH adjustment and AS-number width',
@@ -145,7 +145,7 @@ CLAIMED['C01'] = dict(
 
 CLAIMED['C15'] = dict(
     category='exploration',
-    text='BOUNDED at the property level, with deductive obligations on leaf encoders. (corpus-roundtrip) every distinct NLRI (~200, 16 families: unicast, labelled, VPN, flow, flow-vpn, mcast-vpn, MUP, SR-policy, BGP-LS, EVPN, VPLS) and every attribute collection of the UPDATEs recorded under /repo/qa, decoded by the real decoders, re-encoded by the real encoders, decoded again: equal object, equal hash and index, same bytes on the second encoding, same str()/json(); attributes on an iBGP 4-byte session (only the mandatory defaults may be added). (equality-hash-index) each corpus NLRI with 8 (thorough 24) one-bit variants of its encoding that still decode, all pairs: a == b implies equal hash and equal index; prefix-like routes that differ in family, path identifier, prefix or RD never share an index. (factory-pairs) EVPN MAC/IP routes from MAC.make_mac with one and two labels, varying ESI: round trip and all pairs. (aspath-roundtrip) small-scope exhaustive: every canonical AS path of up to 2 (thorough 3) segments over 2- and 4-byte AS numbers x 4-byte and 2-byte sessions through ASPath.pack_attribute and AttributeCollection.unpack (AS4_PATH merge). Deductive (z3, all inputs), shared with C01 / C16: Attribute._attribute, INETBase / LabelBase / IPVPNBase.pack_nlri, ASN.pack_asn, the FlowSpec length and operator encoders and decoders (Flow._encode_length, IOperation*.encode, CommonOperator, _parse_operations).',
+    text='BOUNDED at the property level, with deductive obligations on leaf encoders. (corpus-roundtrip) every distinct NLRI (~200, 16 families: unicast, labelled, VPN, flow, flow-vpn, mcast-vpn, MUP, SR-policy, BGP-LS, EVPN, VPLS) and every attribute collection of the UPDATEs recorded under /repo/qa, decoded by the real decoders, re-encoded by the real encoders, decoded again: equal object, equal hash and index, same bytes on the second encoding, same str()/json(); attributes on an iBGP 4-byte session (only the mandatory defaults may be added). (equality-hash-index) each corpus NLRI with 8 (thorough 24) one-bit variants of its encoding that still decode, all pairs: a == b implies equal hash and equal index; prefix-like routes that differ in family, path identifier, prefix or RD never share an index. (factory-pairs) EVPN MAC/IP routes from MAC.make_mac with one and two labels, varying ESI: round trip and all pairs. (aspath-roundtrip) small-scope exhaustive: every canonical AS path of up to 2 (thorough 3) segments over 2- and 4-byte AS numbers x 4-byte and 2-byte sessions through ASPath.pack_attribute and AttributeCollection.unpack (AS4_PATH merge). Deductive (z3, all inputs), shared with C01 / C16: Attribute._attribute, INETBase / LabelBase / IPVPNBase.pack_nlri, ASN.pack_asn, CIDR.decode / CIDR.pack_nlri (the <length, prefix> round trip by substitution of the two contracts; CIDR.size, a table lookup, enters by assumed contract checked exhaustively by cidr-size-table), the FlowSpec length and operator encoders and decoders (Flow._encode_length, IOperation*.encode, CommonOperator, _parse_operations).',
     note='Exploration level. One recorded known finding (region C15-mvpn-eq-narrower-than-index: MVPN route types 5/6/7 compare equal with different indexes; the repair breaks an existing test). Families with no example in the QA corpus (RTC, MVPN types other than 5/6/7, some BGP-LS TLVs) and attribute values not present in it (PMSI, tunnel encapsulation variants) are not exercised; text renderings are compared between two decodes only, not against a specification. Six genuine defects repaired (b67d2c7, a5ac5e4, 6b728dd, 48c071e, and the AS4_PATH merge).',
     ref='DESIGN.md §6 C15, §11.15',
     technique='bounded stand-in at the property level: QA-corpus round trips, one-bit variants for equality / hash / index consistency, factory-built routes, small-scope exhaustive AS paths; ' + PYVC + ' on leaf encoders',
